@@ -460,7 +460,8 @@ pub fn batches(def: &SubjectDef, valid: &[u8], lay: &[Span], thorough: bool, see
             }
         }
     };
-    for off in header_positions(lay, len, head) {
+    let swept = header_positions(lay, len, head);
+    for &off in &swept {
         let name = byte_name(lay, off);
         out.push(Batch {
             label: format!("sweep@{off}:{name}"),
@@ -556,7 +557,8 @@ pub fn batches(def: &SubjectDef, valid: &[u8], lay: &[Span], thorough: bool, see
         chunked("structured", st, &mut out);
     }
 
-    // --- bit flips
+    // --- bit flips (outside the swept header region, where every value of every byte is tried
+    // anyway)
     let mut bits: Vec<usize> = vec![];
     let exhaustive = thorough && !def.large && !def.reported_only;
     if exhaustive {
@@ -580,7 +582,7 @@ pub fn batches(def: &SubjectDef, valid: &[u8], lay: &[Span], thorough: bool, see
     }
     let fl: Vec<Mutation> = bits
         .into_iter()
-        .filter(|b| b / 8 < len)
+        .filter(|b| b / 8 < len && swept.binary_search(&(b / 8)).is_err())
         .map(|b| {
             let off = b / 8;
             m(Mu::Byte { off, val: valid[off] ^ (1 << (b % 8)) }, field_name(lay, off), "bit-flip")
